@@ -1,18 +1,24 @@
 /-
-  SfModel.HandleGInst2 — more instances of the generic handle machine (second group) and the complete tables
-  `specOfMajor2` / `specOfBytes2` / `allSpecs2` the driver uses.
+  SfModel.HandleGInst2 — the complete tables `specOfMajor2` / `specOfBytes2` / `allSpecs2` the driver uses: the first
+  group of instances (SfModel/HandleGInst.lean: WAV, AU, AIFF, CAF, W64, AVR, IRCAM, PAF, HTK; RAW by the caller's format
+  word) and the second (SfModel/HandleGInst3.lean: SVX, MPC2K, WVE, PVF, MAT4, MAT5, NIST, VOC).  `t`: the 124 text bytes
+  of a MAT5 header (package version and date — a parameter of the model).
 
   Core Lean only; names live in `Sf.HandleG`.
 -/
 import SfModel.HandleGInst
+import SfModel.HandleGInst3
 namespace Sf.HandleG
 open Sf
 
-def allSpecs2 : List Spec := allSpecs
+def allSpecs2 (t : List Byte := mat5Text0) : List Spec := allSpecs ++ allSpecs3 t
 
-def specOfMajor2 (fmt : Nat) : Option Spec := specOfMajor fmt
+def specOfMajor2 (fmt : Nat) (t : List Byte := mat5Text0) : Option Spec :=
+  match specOfMajor fmt with
+  | some sp => some sp
+  | none => specOfMajor3 t fmt
 
-def specOfBytes2 (bs : List Byte) : Option Spec :=
-  allSpecs2.find? fun sp => match sp.parse 0 0 0 bs with | .unmodelled => false | _ => true
+def specOfBytes2 (bs : List Byte) (t : List Byte := mat5Text0) : Option Spec :=
+  (allSpecs2 t).find? fun sp => match sp.parse 0 0 0 bs with | .unmodelled => false | _ => true
 
 end Sf.HandleG
